@@ -54,6 +54,10 @@ func hostileURL(r *rand.Rand) string {
 	case 12: // fragment-only and query-only references with bytes no URL may contain
 		return Pick(r, []string{"#\x01", "#a\rb", "#\x7f", "#a\x00b", "#%zz", "#%", "#top\x0b", "?\x01", "?a=\x7f", "#a b", "#\t", "# ", "#a\fb", "?q=\x1b", "#é\x02"})
 	case 0:
+		if r.Intn(8) == 0 {
+			// longer than 4 KiB, with something no URL may contain somewhere in it
+			return "data:image/png;base64," + strings.Repeat("iVBORw0KGgo", 400+r.Intn(300)) + Pick(r, []string{"\x01", "\x0b", "\x0c", "\x7f", "#%zz", " x", "\x00", "=", "\r\n\x01"}) + strings.Repeat("A", r.Intn(8))
+		}
 		return dataURIs[r.Intn(len(dataURIs))]
 	case 1:
 		return HostileValue(r)
@@ -117,8 +121,8 @@ func hostileURL(r *rand.Rand) string {
 	return u
 }
 
-var canonHosts = []string{"jane@example.org", "user:pw@example.org", "[2001:db8::ff]", "[2001:db8::ff]:8080", "example.org", "cdn.example.net", "a.b.example", "example.org:8080", "127.0.0.1"}
-var canonPaths = []string{"", "/", "/a/b.png", "/a%20b", "/ok/file", "/x_y-z.html", "/a;p=1"}
+var canonHosts = []string{"example.org:80", "example.org:443", "jane@example.org", "user:pw@example.org", "[2001:db8::ff]", "[2001:db8::ff]:8080", "example.org", "cdn.example.net", "a.b.example", "example.org:8080", "127.0.0.1"}
+var canonPaths = []string{"/%2Fx", "/a%2Fb", "/%2F%2Fy", "", "/", "/a/b.png", "/a%20b", "/ok/file", "/x_y-z.html", "/a;p=1"}
 var canonQueries = []string{"?a=1&amp;amp;amp;b=2", "?x=&amp;amp;lt;", "", "?a=1", "?a=1&b=2", "?q=x%20y", "?a"}
 var canonFrags = []string{"", "#top", "#a-b"}
 
@@ -128,7 +132,7 @@ var canonFrags = []string{"", "#top", "#a-b"}
 func CanonicalURL(r *rand.Rand, scheme string) string {
 	switch scheme {
 	case "":
-		return Pick(r, []string{"/a/b.png", "a/b.png", "/", "x.html", "../up", "?a=1", "#top", "/p?a=1&b=2#f", "//cdn.example.net/lib.js"})
+		return Pick(r, []string{"/%2Fx", "%2F%2Fx", "/%2f/y", "/a/b.png", "a/b.png", "/", "x.html", "../up", "?a=1", "#top", "/p?a=1&b=2#f", "//cdn.example.net/lib.js"})
 	case "mailto":
 		return "mailto:" + Pick(r, []string{"user@example.org", "a.b@example.org", "x@example.org?subject=hi"})
 	case "tel":
